@@ -26,7 +26,8 @@ if os.environ.get(KNOWN_ENV):
     vlib.load_known_findings = _alt_known
 
 ALL_PLACES = '{"flat", "nested", "arr", "map", "rootarr"}'
-ALL_TYPES = '{"int", "str", "optint"}'
+SCALARS = '{"int", "str", "optint"}'
+ALL_TYPES = '{"int", "str", "optint", "vecint", "vecstr", "mapint", "obj"}'      # families of the rules mode (+ "phone", "email")
 INVARIANT = "Check"
 
 
@@ -56,17 +57,20 @@ def harness():
 
 ARCH_ORDER = ["json", "xml", "msgpack", "csv"]
 CHUNK = 20000
-MEDIA = ["mem", "sstream", "short3"]        # in-memory overload and std::istream overload of LoadObject (vh::MakeStream kinds)
+STREAMS = ["sstream", "short3"]             # std::istream overload of LoadObject (vh::MakeStream kinds)
+MEDIA = ["mem"] + STREAMS
 
 
 def replay_scenarios(scens, tag, withdoc=False, media=None):
     """Executes the scenarios on the real archives and media; returns list of (scenario, arch, observation)."""
-    media = media or MEDIA
+    explicit_media = media
     rows = []
     runs = []
     for i, s in enumerate(scens):
         archs = [a for a in ARCH_ORDER if a in s["archs"]]
-        rows.append({"id": "%s%d" % (tag, i), "place": s["place"], "nel": s["nel"], "cap": s["cap"], "fields": s["fields"], "archs": archs, "media": media})
+        # memory + one std::istream kind per scenario (alternating); a replay names its medium
+        media = explicit_media or ["mem", STREAMS[i % len(STREAMS)]]
+        rows.append({"id": "%s%d" % (tag, i), "place": s["place"], "nel": s["nel"], "cap": s["cap"], "fields": s["fields"], "archs": archs, "media": media, "pol": s.get("pol", "skip")})
         runs += [(i, a, m) for a in archs for m in media]
     sp = os.path.join(vlib.scratch(), "val_%s.ndjson" % tag)
     vlib.write_ndjson(sp, rows)
@@ -136,7 +140,7 @@ def dev_matches(d, arch, o):
 
 
 def short(s):
-    return "%s x%d cap=%d fields=[%s]" % (s["place"], s["nel"], s["cap"], "; ".join(
+    return "%s x%d cap=%d %s fields=[%s]" % (s["place"], s["nel"], s["cap"], s.get("pol", "skip"), "; ".join(
         "%s:%s=%s {%s}" % (f["key"], f["t"], f["st"], ",".join(v["k"] + ("(%d,%d)" % (v["a"], v["b"]) if v["k"] in ("range", "phone", "phonenp") else "(%d)" % v["a"] if v["k"] in ("minsize", "maxsize") else "") + ("'" if v["msg"] else "") for v in f["vs"])) for f in s["fields"]))
 
 
@@ -165,12 +169,12 @@ def judge(chk, triples, full_cases=200):
             if seen[0] > full_cases:
                 chk.fail(desc, {"scenario": short(s), "arch": arch, "medium": o["medium"]}, dev=dev)   # occurrences of a classified deviation: keep the count, not the bulk
                 continue
-        chk.fail(desc, {"scenario": {k: s[k] for k in ("place", "nel", "cap", "fields", "archs")}, "arch": arch, "medium": o["medium"],
+        chk.fail(desc, {"scenario": {k: s[k] for k in ("place", "nel", "cap", "pol", "fields", "archs")}, "arch": arch, "medium": o["medium"],
                         "expected": exp, "expdev": s.get("expdev", []), "observed": o}, dev=dev)
 
 
 def digest(s):
-    return hashlib.blake2b(json.dumps([s["place"], s["nel"], s["cap"], s["fields"]], sort_keys=True).encode(), digest_size=8).digest()
+    return hashlib.blake2b(json.dumps([s["place"], s["nel"], s["cap"], s["pol"], s["fields"]], sort_keys=True).encode(), digest_size=8).digest()
 
 
 class Stats:
@@ -187,6 +191,9 @@ class Stats:
         self.merged = 0
         self.early = 0
         self.multi = 0
+        self.types = set()
+        self.pols = set()
+        self.shapes = set()
 
     def add(self, sc):
         for s in sc:
@@ -197,9 +204,13 @@ class Stats:
             self.dev += 1 if any(d["dev"] == "Dev_ValidationCapTruncatesLastField" for d in s["expdev"]) else 0
             for a in s["archs"]:
                 self.archs[a] = self.archs.get(a, 0) + 1
+            self.pols.add(s["pol"])
             for f in s["fields"]:
+                self.types.add((f["t"], f["doc"][0], s["pol"]))
                 for v in f["vs"]:
                     self.kinds.add((v["k"], bool(v["msg"])))
+                    if v["k"] in ("range", "phone", "phonenp"):
+                        self.shapes.add((v["k"], "eq" if v["a"] == v["b"] else "lt", bool(v["msg"])))
             if any(len(m) > 1 for _, m in s["exp"]["errs"]):
                 self.multi += 1
             if s["nel"] > 1 and s["place"] in ("arr", "rootarr") and s["exp"]["errs"]:
@@ -218,27 +229,43 @@ class Stats:
             raise vlib.MachineryError("vacuity: placements %s / caps %s" % (self.places, self.caps))
         if set(self.archs) != set(ARCH_ORDER) or min(self.archs.values()) < 100:
             raise vlib.MachineryError("vacuity: archives %s" % self.archs)
-        if self.exc != {"validation", "none"} or not self.dev or not self.merged or not self.multi or not self.early:
+        for t in ("vecint", "vecstr", "mapint", "obj"):
+            for k in ("null", "absent", "int"):
+                for pol in ("skip", "throw"):
+                    if (t, k, pol) not in self.types:
+                        raise vlib.MachineryError("vacuity: no %s field with a %s value under policy %s" % (t, k, pol))
+        for sh in (("range", "eq", False), ("range", "lt", True), ("phone", "eq", False), ("phone", "eq", True), ("phone", "lt", True), ("phonenp", "eq", True)):
+            if sh not in self.shapes:
+                raise vlib.MachineryError("vacuity: validator shape never explored: %s" % (sh,))
+        if self.exc != {"validation", "none", "ser"} or not self.dev or not self.merged or not self.multi or not self.early:
             raise vlib.MachineryError("vacuity: outcomes %s dev=%d merged=%d multi=%d early=%d" % (self.exc, self.dev, self.merged, self.multi, self.early))
+
+
+def consts(mode, maxv, maxf, places, caps, fams, cat, pols):
+    return {"Mode": '"%s"' % mode, "MaxV": maxv, "MaxF": maxf, "PlaceSet": places, "Caps": caps, "FieldTypes": fams,
+            "Catalogue": '"%s"' % cat, "Pols": pols}
 
 
 def plan(tier):
     """(label, constants) of the TLC runs.  Every run is one shard: generated, replayed, judged, dropped."""
+    both = '{"skip", "throw"}'
     if tier == "quick":
         return [
-            ("rules2-all", {"Mode": '"rules"', "MaxV": 2, "MaxF": 1, "PlaceSet": ALL_PLACES, "Caps": "{0}", "FieldTypes": ALL_TYPES, "Catalogue": '"small"'}),
-            ("rules3-flat", {"Mode": '"rules"', "MaxV": 3, "MaxF": 1, "PlaceSet": '{"flat"}', "Caps": "{0, 1}", "FieldTypes": ALL_TYPES, "Catalogue": '"small"'}),
-            ("fields3-small", {"Mode": '"fields"', "MaxV": 3, "MaxF": 3, "PlaceSet": ALL_PLACES, "Caps": "{0, 1, 2, 3}", "FieldTypes": ALL_TYPES, "Catalogue": '"small"'}),
+            ("rules2-all", consts("rules", 2, 1, ALL_PLACES, "{0}", ALL_TYPES, "small", both)),
+            ("rules3-flat", consts("rules", 3, 1, '{"flat"}', "{0, 1}", SCALARS, "small", '{"skip"}')),
+            ("phone-email-flat", consts("rules", 2, 1, '{"flat"}', "{0}", '{"phone", "email"}', "small", '{"skip"}')),
+            ("phone-email-rootarr", consts("rules", 1, 1, '{"rootarr"}', "{0}", '{"phone", "email"}', "small", '{"skip"}')),
+            ("fields3-small", consts("fields", 3, 3, ALL_PLACES, "{0, 1, 2, 3}", "{}", "small", '{"skip"}')),
+            ("fields2-throw", consts("fields", 3, 2, '{"flat", "arr"}', "{0, 1, 2}", "{}", "small", '{"throw"}')),
         ]
     p = []
     for place in ("flat", "nested", "arr", "map", "rootarr"):
-        p.append(("rules3-%s" % place, {"Mode": '"rules"', "MaxV": 3, "MaxF": 1, "PlaceSet": '{"%s"}' % place, "Caps": "{0, 1}",
-                                        "FieldTypes": ALL_TYPES, "Catalogue": '"small"'}))
+        p.append(("rules3-%s" % place, consts("rules", 3, 1, '{"%s"}' % place, "{0, 1}", ALL_TYPES, "small", both)))
+    p.append(("phone-email", consts("rules", 2, 1, ALL_PLACES, "{0, 1}", '{"phone", "email"}', "small", both)))
     for place in ("flat", "nested", "arr", "map", "rootarr"):
-        p.append(("fields3-large-%s" % place, {"Mode": '"fields"', "MaxV": 3, "MaxF": 3, "PlaceSet": '{"%s"}' % place, "Caps": "{0, 1, 2, 3, 4}",
-                                               "FieldTypes": ALL_TYPES, "Catalogue": '"large"'}))
-    p.append(("fields4-small", {"Mode": '"fields"', "MaxV": 3, "MaxF": 4, "PlaceSet": '{"flat", "rootarr"}', "Caps": "{0, 1, 2, 3, 4}",
-                                "FieldTypes": ALL_TYPES, "Catalogue": '"small"'}))
+        p.append(("fields3-large-%s" % place, consts("fields", 3, 3, '{"%s"}' % place, "{0, 1, 2, 3, 4}", "{}", "large", '{"skip"}')))
+    p.append(("fields3-small-throw", consts("fields", 3, 3, ALL_PLACES, "{0, 1, 2, 3}", "{}", "small", '{"throw"}')))
+    p.append(("fields4-small", consts("fields", 3, 4, '{"flat", "rootarr"}', "{0, 1, 2, 3, 4}", "{}", "small", '{"skip"}')))
     return p
 
 
@@ -252,7 +279,11 @@ def run_check(tier):
         "PassingFieldsLoaded / BuiltinSemantics / MFixedRefinesA / MUnchangedIsADev in every state (invariant Check)",
         "paths compared with array positions replaced by '*' (digits; XML item element 'object'); equal normalised paths merged",
         "every scenario is loaded from memory and through std::istream (stringstream; stream buffer delivering 3 bytes per read) on every applicable archive",
-        "Email / PhoneNumber bound only on the documented examples (README, validators_tests.cpp)",
+        "Email / PhoneNumber bound only on the documented examples (README, validators_tests.cpp); the default PhoneNumber texts per "
+        "failure reason and their precedence are transcribed from validators.h",
+        "field types: int, string, optional<int>, vector<int>, vector<string>, map<string,int>, nested object; MismatchedTypesPolicy Skip and "
+        "ThrowError (a mismatched value ends the load with MismatchedTypes; null and absent are 'not loaded' under both)",
+        "XML + ThrowError + null container/object: not expressible (XML has no null); CSV: scalar fields only",
         "values of failing fields, of fields after an early end (cap reached) and of containers left partly loaded by an early end are not prescribed",
         "XML, cap > 0, two array elements, cap not reached inside the first element: not prescribed (XML paths carry no position)",
     ]
@@ -274,7 +305,7 @@ def run_check(tier):
             chk.sample({"scenario": short(mid), "archs": mid["archs"], "expected": mid["exp"]}, limit=4)
         del sc
     stats.selftest()
-    return chk.finish(extra_cov={"scenarios": stats.n, "runs_per_archive": {a: n * len(MEDIA) for a, n in stats.archs.items()}, "media": MEDIA, "scenarios_under_deviation_guard": stats.dev,
+    return chk.finish(extra_cov={"scenarios": stats.n, "runs_per_archive": {a: n * 2 for a, n in stats.archs.items()}, "media": "mem + one of %s per scenario (alternating)" % STREAMS, "scenarios_under_deviation_guard": stats.dev,
                                  "scenarios_with_merged_array_paths": stats.merged, "scenarios_with_multi_message_field": stats.multi},
                       exhaustive=True)
 
